@@ -183,6 +183,21 @@ static void call_dispatcher(int k, var obj) {
 }
 /* stub 4 (hash) has a default implementation, so it is only checked when present */
 
+/* the type-level lookup macro for the same members (type_method has no defaults: an empty member is a ClassError) */
+static const int TM_STUBS[] = { 0, 1, 2, 3, 4, 9, 11, 18, 19, 22, 33 };
+static void call_type_method(int k, var type, var obj) {
+  var a = $I(0);
+  switch (k) {
+    case 0: (void)type_method(type, Len, len, obj); break;             case 1: (void)type_method(type, C_Int, c_int, obj); break;
+    case 2: (void)type_method(type, C_Str, c_str, obj); break;         case 3: (void)type_method(type, C_Float, c_float, obj); break;
+    case 4: (void)type_method(type, Hash, hash, obj); break;           case 9: (void)type_method(type, Get, get, obj, a); break;
+    case 11: (void)type_method(type, Get, mem, obj, a); break;         case 18: (void)type_method(type, Iter, iter_init, obj); break;
+    case 19: (void)type_method(type, Iter, iter_next, obj, a); break;  case 22: (void)type_method(type, Iter, iter_type, obj); break;
+    case 33: (void)type_method(type, Pointer, deref, obj); break;
+    default: break;
+  }
+}
+
 static var SYN[300]; static int nsyn;          /* synthetic classes: run-time type objects used as classes */
 /* near-name classes: for every built-in class a class whose name extends it ("LenX"), one whose name is a proper
    prefix of it ("Le") and one that differs in case only ("len").  A lookup that compares names loosely (prefix,
@@ -300,6 +315,23 @@ static void runtime_type_case(vh_rng* r, int ninst) {
         vh_count(has[d] ? "dispatches_to_empty_member" : "dispatches_to_missing_class");
       }
     }
+  }
+  /* the same members through the type-level macro */
+  for (size_t q = 0; q < sizeof TM_STUBS / sizeof TM_STUBS[0]; q++) {
+    int k = TM_STUBS[q], d = 0, m = 0;
+    for (int dd = 0; dd < NDISP; dd++) { if (k >= DISP[dd].first_stub && k < DISP[dd].first_stub + DISP[dd].nmembers) { d = dd; m = k - DISP[dd].first_stub; } }
+    int present = has[d] && (masks[d] >> m & 1);
+    long before[NSTUB];
+    for (int j = 0; j < NSTUB; j++) { before[j] = stub_calls[j]; }
+    VH_CATCH(call_type_method(k, type, obj), exc);
+    vh_evals(2);
+    long others = 0;
+    for (int j = 0; j < NSTUB; j++) { if (j != k) { others += stub_calls[j] - before[j]; } }
+    if (present ? (exc != NULL || stub_calls[k] - before[k] != 1 || others != 0) : (exc != ClassError || stub_calls[k] != before[k] || others != 0)) {
+      vh_violation(K("type_method:macro-wrong-for-member"), "type_method for stub %d on a type where the member is %s gave %s, the stub ran %ld times, other stubs %ld times", k,
+        present ? "declared" : has[d] ? "left empty" : "absent with its class", vh_exc_name(exc), stub_calls[k] - before[k], others);
+    }
+    if (!present && has[d]) { vh_count("type_level_macro_calls_of_an_empty_member"); }
   }
   /* the same type object declared again (construct in place) now that every lookup above has happened: the second
      declaration is what every lookup answers from, whatever was looked up, memoised or dispatched under the first */
